@@ -53,6 +53,8 @@ func genC18(t *rapid.T) c18Case {
 	c.FixCRC = rapid.IntRange(0, 5).Draw(t, "fixCRC") != 0
 	if v := rapid.IntRange(0, 15).Draw(t, "viaDir"); v <= 2 {
 		c.ViaDir = v
+	} else if os.Getenv("VERIF_C18_VIADIR") != "" {
+		c.ViaDir = 1 + v%2 // development aid: every case takes the directory path
 	}
 	if len(c.Table.Logs) > 0 && rapid.IntRange(0, 2).Draw(t, "logEdit") == 1 {
 		c.LogMuts = gen.DrawMuts(t, 3)
@@ -447,6 +449,9 @@ func bytesOf(b byte, n int) []byte {
 
 const allocLimit = 64 << 20
 
+// slowCases counts cases that needed more than 60 s but finished (starvation, not a hang).
+var slowCases int
+
 // checkDamaged runs exercise under a watchdog and an allocation meter.
 func checkDamaged(data []byte, orig gen.TableSpec, other []byte, viaDir int) error {
 	var before, after runtime.MemStats
@@ -473,7 +478,16 @@ func checkDamaged(data []byte, orig gen.TableSpec, other []byte, viaDir int) err
 	select {
 	case r = <-done:
 	case <-time.After(60 * time.Second):
-		return Failf("C18/hang", "reading a %d-byte damaged table did not return within 60 s", len(data))
+		// A case normally takes milliseconds.  Before calling it a hang, rule out an overloaded
+		// machine (a thorough run shares it with 15 other shards and whatever else is going
+		// on): wait four more minutes for the same goroutine.  An endless loop or a deadlock
+		// is still there after that; a case that was merely starved finishes and is counted.
+		select {
+		case r = <-done:
+			slowCases++
+		case <-time.After(240 * time.Second):
+			return Failf("C18/hang", "reading a %d-byte damaged table did not return within 300 s", len(data))
+		}
 	}
 	if r.panic != nil {
 		return &Violation{Sig: "C18/panic", Msg: fmt.Sprintf("reading damaged bytes panicked: %v\n%s", r.panic, trimStack(r.stack))}
@@ -531,6 +545,10 @@ func propC18(c c18Case, o *Obs) error {
 		o.Class("opens")
 	} else {
 		o.Class("rejected-at-open")
+	}
+	if slowCases > 0 {
+		o.Count("cases_that_took_over_60s_but_finished", slowCases)
+		slowCases = 0
 	}
 	for _, m := range c.Muts {
 		o.Class(fmt.Sprintf("mut-kind-%d", m.Kind))
